@@ -65,6 +65,8 @@ pub struct C20 {
 	ttl_races_left: u32,
 	/// swarm: the user switches the active account while the refresh runs
 	allow_switch: bool,
+	/// swarm: T0 may be the wallet's real updater thread (start_updater .. stop_updater)
+	allow_updater: bool,
 }
 
 struct TtlRace {
@@ -165,6 +167,7 @@ impl C20 {
 			scenarios: 0,
 			ttl_race: None,
 			allow_switch: run.rng.chance(1, 3),
+			allow_updater: run.rng.chance(1, 2),
 			ttl_races_left: if run.rng.chance(1, 3) { 1 } else { 0 },
 			max_scenarios: if run.thorough { 3 } else { 2 },
 			n_schedules: if run.thorough { 40 } else { 14 },
@@ -224,6 +227,10 @@ impl C20 {
 				TaskOutcome { ok: r.is_ok(), err: r.err(), slate: None, panicked: false }
 			}));
 		}
+		if t.kind == "updater" {
+			// built by run_interleaved (needs the scheduler); serial runs use passes
+			return Some(Box::new(|| TaskOutcome { ok: true, err: None, slate: None, panicked: false }));
+		}
 		let owner = ex.world.owner(w);
 		let foreign = ex.world.foreign(w);
 		let mask = ex.world.mask(w);
@@ -279,6 +286,45 @@ impl C20 {
 			.collect()
 	}
 
+	/// one pass of the background updater, as `Updater::run` performs it
+	fn updater_pass(ex: &Exec, w: usize) -> Result<bool, grin_wallet_libwallet::Error> {
+		let owner = ex.world.owner(w);
+		let mask = ex.world.mask(w);
+		grin_wallet_libwallet::api_impl::owner::update_wallet_state(owner.wallet_inst.clone(), mask.as_ref(), &None, false)
+	}
+
+	/// serial reference for an updater scenario: the operations (tasks[1..]) in the given
+	/// order, an updater pass before the i-th of them where bit i of `passes` is set, and
+	/// always a final pass (the updater finishes a pass after it was told to stop)
+	fn run_serial_updater(ex: &mut Exec, w: usize, tasks: &[TaskSpec], order: &[usize], passes: u32) -> Vec<TaskOutcome> {
+		let mut outs: Vec<Option<TaskOutcome>> = vec![None; tasks.len()];
+		outs[0] = Some(TaskOutcome { ok: true, err: None, slate: None, panicked: false });
+		for (k, &i) in order.iter().enumerate() {
+			if passes & (1 << k) != 0 {
+				let r = std::panic::catch_unwind(std::panic::AssertUnwindSafe(|| Self::updater_pass(ex, w)));
+				if r.is_err() {
+					outs[0] = Some(TaskOutcome { ok: false, err: Some("panic".into()), slate: None, panicked: true });
+				}
+			}
+			let f = match Self::task_fn(ex, w, &tasks[i]) {
+				Some(f) => f,
+				None => continue,
+			};
+			let r = std::panic::catch_unwind(std::panic::AssertUnwindSafe(f));
+			outs[i] = Some(match r {
+				Ok(o) => o,
+				Err(_) => TaskOutcome { ok: false, err: Some("panic".into()), slate: None, panicked: true },
+			});
+		}
+		let r = std::panic::catch_unwind(std::panic::AssertUnwindSafe(|| Self::updater_pass(ex, w)));
+		if r.is_err() {
+			outs[0] = Some(TaskOutcome { ok: false, err: Some("panic".into()), slate: None, panicked: true });
+		}
+		outs.into_iter()
+			.map(|o| o.unwrap_or(TaskOutcome { ok: false, err: Some("not run".into()), slate: None, panicked: false }))
+			.collect()
+	}
+
 	/// run the tasks as threads under the baton scheduler
 	fn run_interleaved(
 		ex: &mut Exec,
@@ -288,7 +334,9 @@ impl C20 {
 		follow: Vec<usize>,
 		pct: bool,
 	) -> Result<(Vec<TaskOutcome>, Vec<usize>, u64, u32), String> {
-		let sched = Sched::new(tasks.len(), seed, follow, pct);
+		let with_updater = tasks[0].kind == "updater";
+		let sched = Sched::new_with_slot(tasks.len(), seed, follow, pct, with_updater);
+		crate::sched::set_current(if with_updater { Some(sched.clone()) } else { None });
 		crate::hooks::set_sched(Some(sched.clone() as Arc<dyn crate::hooks::SchedHooks>));
 		{
 			let s2 = sched.clone();
@@ -297,10 +345,39 @@ impl C20 {
 		}
 		let mut handles = vec![];
 		for (i, t) in tasks.iter().enumerate() {
-			let f = match Self::task_fn(ex, w, t) {
+			let f: Option<Box<dyn FnOnce() -> TaskOutcome + Send + 'static>> = if t.kind == "updater" {
+				// the controller: starts the wallet's own updater thread (adopted by the
+				// scheduler at its first lock section), lets it run until the operations
+				// have finished, tells it to stop and waits for it to end
+				let owner = ex.world.owner(w);
+				let mask = ex.world.mask(w);
+				let s = sched.clone();
+				let n = tasks.len();
+				let freq = 1 + (seed % 600);
+				Some(Box::new(move || {
+					let fail = |e: String| TaskOutcome { ok: false, err: Some(e), slate: None, panicked: false };
+					if let Err(e) = owner.start_updater(mask.as_ref(), Duration::from_secs(freq)) {
+						s.abandon_slot();
+						return fail(format!("{}", e));
+					}
+					if !s.wait_adopted(Duration::from_secs(30)) {
+						s.abandon_slot();
+						return fail("updater thread never reached a lock section".into());
+					}
+					let ops: Vec<usize> = (1..n).collect();
+					s.wait_finished(&ops);
+					let _ = owner.stop_updater();
+					s.wait_finished(&[n]);
+					TaskOutcome { ok: true, err: None, slate: None, panicked: false }
+				}))
+			} else {
+				Self::task_fn(ex, w, t)
+			};
+			let f = match f {
 				Some(f) => f,
 				None => {
 					crate::hooks::set_sched(None);
+					crate::sched::set_current(None);
 					*ex.world.chain.node.sh.sched.lock().unwrap() = None;
 					return Err("task cannot be built".into());
 				}
@@ -320,6 +397,7 @@ impl C20 {
 		}
 		let finished = sched.run_all(Duration::from_secs(90));
 		crate::hooks::set_sched(None);
+		crate::sched::set_current(None);
 		*ex.world.chain.node.sh.sched.lock().unwrap() = None;
 		if !finished {
 			return Err(format!("DEADLOCK {}", sched.stuck_info()));
@@ -328,7 +406,8 @@ impl C20 {
 		for h in handles {
 			outs.push(h.join().unwrap_or(TaskOutcome { ok: false, err: Some("join".into()), slate: None, panicked: true }));
 		}
-		Ok((outs, sched.choices(), sched.gap_runs(), sched.yields_of(0)))
+		let t0 = sched.slot().unwrap_or(0);
+		Ok((outs, sched.choices(), sched.gap_runs(), sched.yields_of(t0)))
 	}
 
 	fn permutations(n: usize) -> Vec<Vec<usize>> {
@@ -509,8 +588,18 @@ impl C20 {
 
 	/// choose the scenario's tasks from the pre-state
 	fn pick_tasks(&self, run: &mut Run, w: usize) -> Vec<TaskSpec> {
+		let updater = self.allow_updater && run.rng.chance(1, 3);
+		if updater {
+			run.cov.probe("T0_is_the_wallets_own_updater_thread");
+		}
 		let mut tasks = vec![TaskSpec {
-			kind: if run.rng.chance(1, 4) { "scan".into() } else { "refresh".into() },
+			kind: if updater {
+				"updater".into()
+			} else if run.rng.chance(1, 4) {
+				"scan".into()
+			} else {
+				"refresh".into()
+			},
 			m: None,
 			args: None,
 			del: false,
@@ -531,7 +620,10 @@ impl C20 {
 				run.cov.probe("active_account_switched_inside_the_window");
 			}
 		}
-		let n_ops = 1 + run.rng.below(3) as usize;
+		let mut n_ops = 1 + run.rng.below(3) as usize;
+		if updater && !run.thorough {
+			n_ops = n_ops.min(2);
+		}
 		let deals: Vec<usize> = (0..run.model.deals.len()).collect();
 		for _ in 0..n_ops * 4 {
 			if tasks.len() > n_ops {
@@ -634,8 +726,28 @@ impl C20 {
 		let saved = Self::save(ex, w);
 		// serial outcomes (all permutations of the tasks)
 		let mut serial: Vec<(Vec<usize>, Vec<String>)> = vec![];
-		for p in Self::permutations(tasks.len()) {
-			let outs = Self::run_serial(ex, w, &tasks, &p);
+		let with_updater = tasks[0].kind == "updater";
+		let orders: Vec<(Vec<usize>, u32)> = if with_updater {
+			// every order of the operations x an updater pass or none before each of them
+			let n_ops = tasks.len() - 1;
+			let mut v = vec![];
+			for p in Self::permutations(n_ops) {
+				let p: Vec<usize> = p.iter().map(|i| i + 1).collect();
+				for mask in 0..(1u32 << n_ops) {
+					v.push((p.clone(), mask));
+				}
+			}
+			v
+		} else {
+			Self::permutations(tasks.len()).into_iter().map(|p| (p, 0)).collect()
+		};
+		for (p, pass_mask) in orders {
+			let outs = if with_updater {
+				Self::run_serial_updater(ex, w, &tasks, &p, pass_mask)
+			} else {
+				Self::run_serial(ex, w, &tasks, &p)
+			};
+			let p = if with_updater { p.iter().cloned().chain(std::iter::once(1000 + pass_mask as usize)).collect() } else { p };
 			if outs.iter().any(|o| o.panicked) {
 				let _ = Self::restore(ex, &saved);
 				return OpRes::Err("ABORT serial run panicked (outside this property's scope)".into());
